@@ -14,7 +14,10 @@ structure KStat where
   predf : Nat := 0
   wf : Nat := 0
   err : Nat := 0
-  kf : List (String × Nat) := []
+  viol : Nat := 0     -- pred=f and not an instance of a known finding (kf=- or corr=neq)
+  cbreak : Nat := 0   -- pred=t, corr=neq, outside every known-finding region
+  kf : List (String × Nat) := []    -- cases inside a region
+  kfi : List (String × Nat) := []   -- cases that fail exactly as recorded (pred=f, corr=eq, kf=name)
 
 def bumpKf (l : List (String × Nat)) (n : String) : List (String × Nat) :=
   match l with
@@ -44,16 +47,25 @@ partial def loop (tbl : Std.HashMap String Handler) (quiet : Bool) (hin hout : I
   let (reply, kind, v) := handleLine tbl l
   let s := st.getD kind {}
   let s := { s with total := s.total + 1 }
-  let (s, good) := match v with
-    | none => ({ s with err := s.err + 1 }, false)
+  -- `show`: print the line in quiet mode
+  let (s, «show») := match v with
+    | none => ({ s with err := s.err + 1 }, true)
     | some v =>
       let s := if v.corr then s else { s with neq := s.neq + 1 }
       let s := if v.pred then s else { s with predf := s.predf + 1 }
       let s := if v.wf then { s with wf := s.wf + 1 } else s
       let s := match v.kf with | some n => { s with kf := bumpKf s.kf n } | none => s
-      (s, v.corr && v.pred)
+      match v.pred, v.corr, v.kf with
+      | false, true, some n =>
+        -- fails exactly as the known finding records: count, show only the first two per finding
+        let seen := match s.kfi.find? (fun (p : String × Nat) => p.1 == n) with | some p => p.2 | none => 0
+        ({ s with kfi := bumpKf s.kfi n }, decide (seen < 2))
+      | false, _, _ => ({ s with viol := s.viol + 1 }, true)
+      | true, false, none => ({ s with cbreak := s.cbreak + 1 }, true)
+      | true, false, some _ => (s, false)     -- repaired for this input: accepted
+      | true, true, _ => (s, false)
   if quiet then
-    if !good then hout.putStrLn (reply ++ " || " ++ l)
+    if «show» then hout.putStrLn (reply ++ " || " ++ l)
   else hout.putStrLn reply
   loop tbl quiet hin hout (st.insert kind s)
 
@@ -66,5 +78,6 @@ def main (args : List String) : IO Unit := do
   if quiet then
     for (k, s) in st.toList do
       let kfs := String.join (s.kf.map fun (n, c) => s!" kf:{n}={c}")
-      hout.putStrLn s!"# kind={k} total={s.total} neq={s.neq} predf={s.predf} wf={s.wf} err={s.err}{kfs}"
+      let kfis := String.join (s.kfi.map fun (n, c) => s!" kfi:{n}={c}")
+      hout.putStrLn s!"# kind={k} total={s.total} neq={s.neq} predf={s.predf} wf={s.wf} err={s.err} viol={s.viol} cbreak={s.cbreak}{kfs}{kfis}"
   hout.flush
